@@ -353,7 +353,15 @@ pub fn execute(c: &CtlCase, cfg: &Config) -> Outcome {
 }
 
 pub fn line_of(id: usize, c: &CtlCase, o: &Outcome, extra: &str) -> String {
-    let (masked, dates_ok) = mask_dates(&o.wire);
+    let (mut masked, dates_ok) = mask_dates(&o.wire);
+    if c.write_err.is_some() {
+        // the stream may end inside a Date header, which then cannot be masked: cut it back
+        if let Some(p) = masked.windows(8).rposition(|w| w == b"\r\nDate: ") {
+            if masked.len() < p + 8 + 29 + 2 {
+                masked.truncate(p);
+            }
+        }
+    }
     let sent = match c.cut {
         Some(k) => &c.base.bytes[..std::cmp::min(k, c.base.bytes.len())],
         None => &c.base.bytes[..],
